@@ -486,7 +486,11 @@ func (h *httpCache) CacheHandler(w http.ResponseWriter, r *http.Request) {
 			return
 		}
 
-		w.Header().Set("Content-Length", strconv.FormatInt(size, 10))
+		if size >= 0 {
+			// The size is unknown (-1) when the item is only known to
+			// exist on a proxy backend that does not report sizes.
+			w.Header().Set("Content-Length", strconv.FormatInt(size, 10))
+		}
 		w.WriteHeader(http.StatusOK)
 		h.logResponse(http.StatusOK, r)
 
